@@ -6,6 +6,8 @@ import (
 	"math/big"
 	"strings"
 
+	sdk "github.com/cosmos/cosmos-sdk/types"
+
 	ophosttypes "github.com/initia-labs/OPinit/x/ophost/types"
 )
 
@@ -48,18 +50,29 @@ func newC08Run(rep *Report, seed uint64, id int, nDenoms int) *c08Run {
 		cfg := &L1Config{Proposer: e1.User(4).Str, Challenger: e1.User(5).Str, Period: 3 * sec, Interval: 10 * sec, Start: 1, Submitter: e1.User(4).Str, Chain: 1, Meta: []byte("other")}
 		e1.Resolve(e1.User(3).Str)
 		if res := x.l1(L1Op{Kind: "create", Sender: e1.User(3).Str, Config: cfg}); !res.OK {
-			panic("create second bridge failed: " + res.Err)
+			x.viol(len(x.c1.Ops)-1, "C08:bridge-creation-rejected", "a valid CreateBridge was rejected: "+res.Err)
 		}
 	}
 	for _, d := range x.bases {
 		y.donations[d] = big.NewInt(0)
 		t := big.NewInt(0)
-		for _, u := range x.e1.Users {
-			t.Add(t, x.e1.BK.GetBalance(x.e1.Ctx, u.Addr, d).Amount.BigInt())
+		for _, a := range y.outsideAddrs() {
+			t.Add(t, x.e1.BK.GetBalance(x.e1.Ctx, a, d).Amount.BigInt())
 		}
 		y.initial[d] = t
 	}
 	return y
+}
+
+// every L1 account that can hold value outside OUR escrow: users, module accounts, the other escrow
+func (y *c08Run) outsideAddrs() []sdk.AccAddress {
+	e1 := y.e1
+	var out []sdk.AccAddress
+	for _, u := range e1.Users {
+		out = append(out, u.Addr)
+	}
+	out = append(out, e1.ModAddr[ModGov], e1.ModAddr[ModDistr], e1.ModAddr[ModL1Minter], sdk.AccAddress(ophosttypes.BridgeAddress(y.B+1)))
+	return out
 }
 
 func (y *c08Run) check(what string) {
@@ -189,6 +202,8 @@ func (y *c08Run) stepWithdraw() {
 	to := y.e1.User(uint64(1 + r.Intn(7))).Str
 	if r.Chance(6) {
 		to = c04BadRecipients[r.Intn(len(c04BadRecipients))]
+	} else if r.Chance(12) {
+		to = y.specialRecipient()
 	}
 	res := sc.Case.Do(L2Op{Kind: "withdraw", Sender: u.Str, To: to, Denom: y.l2d[di], Amt: amt})
 	y.rep.Hist("withdraw:" + okStr(res.OK))
@@ -268,8 +283,8 @@ func (y *c08Run) stepChallenge() {
 // the current proposer / challenger of the bridge (roles move during the run)
 func (y *c08Run) role(proposer bool) string {
 	cfg, err := y.e1.K.GetBridgeConfig(y.e1.Ctx, y.B)
-	if err != nil {
-		panic(err)
+	if err != nil { // only on a broken tree (creation rejected, already reported)
+		return y.e1.User(1).Str
 	}
 	s := cfg.Challenger
 	if proposer {
@@ -358,6 +373,9 @@ func (y *c08Run) claim(k int, o *c08Out, expectOK bool) {
 		y.okClaims++
 		if lf.OKCount > 1 {
 			y.viol(len(y.c1.Ops)-1, "C08:paid-twice", fmt.Sprintf("withdrawal %d was paid twice", lf.W.Seq))
+		}
+		if lf.Claimable && lf.RcvID == EscrowBase+y.B { // paid from the escrow to itself: the value stays, as a donation
+			y.donations[lf.W.Denom].Add(y.donations[lf.W.Denom], lf.W.Amt)
 		}
 	} else {
 		y.rejected++
@@ -464,11 +482,9 @@ func (y *c08Run) drain() {
 			y.viol(len(y.c1.Ops)-1, "C08:drain-escrow", fmt.Sprintf("after the drain escrow(%s) = %s, L2 supply + donations + unclaimable (zero / bad recipient) = %s", d, escrow, want))
 		}
 		outside := big.NewInt(0)
-		for _, u := range e1.Users {
-			outside.Add(outside, e1.BK.GetBalance(e1.Ctx, u.Addr, d).Amount.BigInt())
+		for _, a := range y.outsideAddrs() {
+			outside.Add(outside, e1.BK.GetBalance(e1.Ctx, a, d).Amount.BigInt())
 		}
-		// the other bridge's escrow also holds L1 value outside OUR escrow
-		outside.Add(outside, e1.BK.GetBalance(e1.Ctx, ophosttypes.BridgeAddress(y.B+1), d).Amount.BigInt())
 		tot := new(big.Int).Add(outside, want)
 		if tot.Cmp(y.initial[d]) != 0 {
 			y.viol(len(y.c1.Ops)-1, "C08:holdings-not-conserved", fmt.Sprintf("%s: held on L1 outside the escrow %s + L2 supply + donations + unclaimable %s != initial L1 total %s", d, outside, want, y.initial[d]))
@@ -498,7 +514,11 @@ func genC08(seed uint64, tier string, outdir string) *Report {
 				if r.Chance(85) {
 					amt = big.NewInt(int64(r.Intn(100000)))
 				}
-				y.stepDeposit(r.Weighted([]int{70, 12, 6, 12}), amt, nil, "")
+				kind := r.Weighted([]int{70, 12, 6, 12})
+				if (kind == 1 || kind == 3) && r.Chance(12) {
+					amt = big.NewInt(0) // zero amount with a bad recipient / with a good recipient and a failing hook
+				}
+				y.stepDeposit(kind, amt, nil, "")
 			case 1: // relay: in order, duplicate, ahead
 				switch r.Weighted([]int{75, 15, 10}) {
 				case 0:
